@@ -149,6 +149,8 @@ def generate(rng, tier):
             vals = [10 + 3 * i + (i * i) % 7 for i in range(size)]
             call = {"dims": [[d, l] for d, l, _ in dims], "vals": vals, "bw": bw,
                     "dtype": rng.choice(["float64", "float64", "int64", "float32", "int16"]),
+                    # the array may be lazy (any chunking); the widths may be tuples, lists or NumPy integers
+                    "lazy": rng.random() < 0.25, "bw_spelling": rng.choice(["tuple", "tuple", "list", "numpy"]),
                     "boundary": kwval(rng, axes, WORDS),
                     # (70000 does not fit a 16-bit integer, 0.5 no integer at all)
                     "fill": kwval(rng, axes, [0, 5, -1, 9, 0.5, -2.75, 70000])}
@@ -192,7 +194,11 @@ def run_impl(case):
         shape = [l for _, l in k["dims"]]
         da = xr.DataArray(np.array(k["vals"], dtype=k.get("dtype", "float64")).reshape(shape),
                           dims=[d for d, _ in k["dims"]])
-        bw = None if k["bw"] is None else {a: tuple(w) for a, w in k["bw"]}
+        sp = k.get("bw_spelling", "tuple")
+        mk = {"tuple": tuple, "list": list, "numpy": lambda w: (np.int64(w[0]), np.int32(w[1]))}[sp]
+        bw = None if k["bw"] is None else {a: mk(w) for a, w in k["bw"]}
+        if k.get("lazy"):
+            da = da.chunk({d: max(1, (n + 1) // 2) for d, n in zip(da.dims, da.shape)})
         try:
             r = pad(da, g, boundary_width=bw, boundary=k["boundary"], fill_value=k["fill"])
             out["pad"] = {"dims": [[d, int(n)] for d, n in zip(r.dims, r.shape)],
